@@ -152,10 +152,9 @@ fn compute_block_facts<'ast, 'arena>(
             for &local in &op.reads {
                 note_use(&mut uses, &defs, local, local_start);
             }
-            for &local in &op.writes {
-                note_def(&mut defs, local, local_start);
-            }
 
+            // A statement's calls run before its own write (`x get f()`), so the
+            // callees' capture reads are noted before the statement's definitions.
             for &callee in &op.direct_callees {
                 let summary = &summaries[callee.0 as usize];
                 if !summary.available {
@@ -169,6 +168,10 @@ fn compute_block_facts<'ast, 'arena>(
                 }
                 // Capture writes are may-writes (the callee can return before it
                 // assigns), so they never act as definitions here.
+            }
+
+            for &local in &op.writes {
+                note_def(&mut defs, local, local_start);
             }
         }
 
